@@ -20,4 +20,8 @@ if prev:
              "mechanism, preferably in a different function or file and breaking a different clause of the statement, and "
              "with a different kind of trigger (stateful / multi-step / concurrent / configuration-dependent rather than a "
              "single unusual input):\n" + '\n'.join(prev) + '\n')
+if sfx >= 'c':
+    base += ("\nFor this round prefer a trigger of a kind not used above: an error / fault path (a dependency returns an error or a partial "
+             "result at a particular point, a failure followed by a retry, a resource limit or size boundary reached, a restart with persisted "
+             "state), an unusual but valid configuration, or a long-running effect (counter wrap, expiry of cached state, time passing between two steps).\n")
 print(base)
